@@ -68,6 +68,72 @@ fn total(kind: &str, quick: bool) -> usize {
     }
 }
 
+/// See the `callchain` group: (program text, expected stdout).
+fn callchain_program(d: usize, g: usize, k: usize, exit: usize) -> (String, String) {
+    let mut t = String::new();
+    let mut want = String::new();
+    t.push_str("DIM SHARED DV%\nON ERROR GOTO Trap\nFOR J% = 1 TO 2\nDV% = 0\n");
+    let call_site = "S1\nPRINT \"after call\"\nCont:\nPRINT \"cont\"\n";
+    if g == 0 {
+        t.push_str(call_site);
+    } else {
+        t.push_str("GOSUB L1\n");
+    }
+    t.push_str("PRINT \"back\"; J%\nNEXT\nPRINT \"end\"\nEND\n");
+    if g == 1 {
+        t.push_str(&format!("L1:\nPRINT \"l1\"\n{}RETURN\n", call_site));
+    } else if g == 2 {
+        t.push_str(&format!("L1:\nPRINT \"l1\"\nGOSUB L2\nPRINT \"r1\"\nRETURN\nL2:\nPRINT \"l2\"\n{}RETURN\n", call_site));
+    }
+    t.push_str("Trap:\nPRINT \"t\"; ERR\n");
+    t.push_str(["RESUME Cont\n", "RESUME NEXT\n", "DV% = 5\nRESUME\n"][exit]);
+    for i in 1..=d {
+        t.push_str(&format!("SUB S{}\nPRINT \"s{}\"\n", i, i));
+        if k == 1 && i == 1 {
+            t.push_str("GOSUB Inner\nPRINT \"s1 done\"\nEXIT SUB\nInner:\n");
+        }
+        if i < d {
+            t.push_str(&format!("S{}\n", i + 1));
+        } else {
+            t.push_str("Q% = 10 / DV%\nPRINT \"q\"; Q%\n");
+        }
+        t.push_str(&format!("PRINT \"e{}\"\n", i));
+        if k == 1 && i == 1 {
+            t.push_str("RETURN\n");
+        }
+        t.push_str("END SUB\n");
+    }
+    for j in 1..=2 {
+        if g >= 1 {
+            want.push_str("l1\r\n");
+        }
+        if g == 2 {
+            want.push_str("l2\r\n");
+        }
+        for i in 1..=d {
+            want.push_str(&format!("s{}\r\n", i));
+        }
+        want.push_str("t 11 \r\n");
+        if exit != 0 {
+            want.push_str(if exit == 1 { "q 0 \r\n" } else { "q 2 \r\n" });
+            for i in (1..=d).rev() {
+                want.push_str(&format!("e{}\r\n", i));
+                if k == 1 && i == 1 {
+                    want.push_str("s1 done\r\n");
+                }
+            }
+            want.push_str("after call\r\n");
+        }
+        want.push_str("cont\r\n");
+        if g == 2 {
+            want.push_str("r1\r\n");
+        }
+        want.push_str(&format!("back {} \r\n", j));
+    }
+    want.push_str("end\r\n");
+    (t, want)
+}
+
 pub fn worker(case: &Value) -> Value {
     if case["axis"].as_str() == Some("text") {
         let o = run_pipeline(case["text"].as_str().unwrap_or(""), &RunOpts { collect_files: true, ..RunOpts::default() });
@@ -124,6 +190,39 @@ pub fn worker(case: &Value) -> Value {
                     "text": text,
                     "case": {"axis": "text", "text": text},
                 }));
+            }
+        }
+        return json!({"n": n, "nontrivial": n, "hist": hist, "bad": bads});
+    }
+    if kind == "callchain" {
+        // an error d calls deep, with g GOSUBs pending at module level (and optionally one inside the first SUB), trapped
+        // at module level and left by RESUME label / RESUME NEXT / repair + RESUME, twice in a loop; afterwards every
+        // pending module-level GOSUB is answered by its RETURN
+        let mut bads = vec![];
+        let mut hist: std::collections::BTreeMap<String, u64> = Default::default();
+        let mut n = 0u64;
+        for d in 1..=3usize {
+            for g in 0..=2usize {
+                for k in 0..=1usize {
+                    for exit in 0..3usize {
+                        let (text, want) = callchain_program(d, g, k, exit);
+                        let o = run_pipeline(&text, &RunOpts { budget: 200_000, ..RunOpts::default() });
+                        n += 1;
+                        if matches!(o.end, vcore::outcome::End::Normal) && o.stdout_str() == want {
+                            *hist.entry("agree:normal".into()).or_insert(0) += 1;
+                        } else {
+                            *hist.entry("differ".into()).or_insert(0) += 1;
+                            if bads.len() < 20 {
+                                bads.push(json!({
+                                    "sig": format!("C05|callchain|{}|depth{}|gosubs{}", ["RESUME label", "RESUME NEXT", "repair + RESUME"][exit], d.min(2), g.min(1)),
+                                    "summary": format!("an error {} call(s) deep with {} module-level GOSUB(s) pending{}, left by {}: expected output {:?} and a normal end, got {:?} and {} — program: {:?}", d, g, if k == 1 { " and one inside the first SUB" } else { "" }, ["RESUME label", "RESUME NEXT", "repair + RESUME"][exit], want, o.stdout_str(), o.end.class(), super::truncate_text(&text, 700)),
+                                    "text": text,
+                                    "case": {"axis": "text", "text": text},
+                                }));
+                            }
+                        }
+                    }
+                }
             }
         }
         return json!({"n": n, "nontrivial": n, "hist": hist, "bad": bads});
@@ -279,6 +378,8 @@ pub fn drive(tier: &str) -> i32 {
         plan.push(json!({"kind": kind, "programs": t}));
         states += t as u64;
     }
+    cases.push(json!({"k": "callchain"}));
+    plan.push(json!({"kind": "callchain", "programs": 54}));
     cases.push(json!({"k": "callgosub"}));
     plan.push(json!({"kind": "callgosub", "programs": 8}));
     cases.push(json!({"k": "header"}));
@@ -294,7 +395,7 @@ pub fn drive(tier: &str) -> i32 {
         run.capped = true;
     }
     let mut ev = Evidence::new("model_checking");
-    ev.set("rule", "jump layouts: up to 3 labelled blocks in every order (quick: two orders for 3 blocks), each ending in fall-through / END / RETURN / GOTO x / GOSUB x / RETURN x for every x, entered by fall-through or by GOTO, at module level and inside a SUB, every block counting its executions (the program stops after 7). loop escapes: every nest of 1..3 loops over {FOR, FOR STEP -1, WHILE, DO..LOOP UNTIL} with pairwise distinct bounds, a GOTO from the innermost body to a label in the body of every shallower level and after the nest, a GOSUB to a routine after the nest; the same with IF / ELSE / CASE / CASE ELSE blocks between the loops. jumps into a block: GOTO to a label in the middle of an IF / ELSEIF / ELSE / CASE / CASE ELSE block, a WHILE / DO body or an IF inside a WHILE, at module level and inside a SUB, once and three times in a row. GOSUB and calls: a RETURN inside a SUB that was called from a GOSUB routine, a GOSUB left behind by EXIT SUB / EXIT FUNCTION followed by a RETURN at module level (both Return without GOSUB, error 3, at the RETURN), and subprograms (also recursive ones) with their own GOSUB / RETURN pairs called from a GOSUB routine. RESUME label after an error inside a SUB, two calls deep, and below a pending GOSUB: the subprograms have ended, module-level variables and arrays are the module's again, a later unhandled error lists no call site. failing block headers: an IF / ELSEIF / second ELSEIF / single-line IF / WHILE / DO WHILE / DO UNTIL / LOOP WHILE / LOOP UNTIL condition, a SELECT CASE subject, a first / second CASE test, a FOR start / limit that divides by zero under ON ERROR GOTO + RESUME (the handler repairs the divisor), at module level and in a SUB: apart from the handler's line the output is that of the repaired program. jumps across scopes: GOTO / GOSUB / RETURN label from a SUB to a module-level label, from the module level into a SUB and from one SUB into another must be rejected with Label not defined at the row of the jump. one fault: 10 failing statement kinds (incl. a built-in that fails after a user FUNCTION has returned within the same statement, also a FUNCTION that itself executes ON ERROR RESUME NEXT) x 17 containers (main, IF / ELSE / ELSEIF blocks, single-line IF, first / middle / ELSE CASE blocks, FOR / FOR STEP / WHILE / DO bodies, an IF block that ends a FOR body, SUB and FUNCTION bodies, the end of the module with subprograms following) x 3 positions x 9 handler modes (none, RESUME with the operand repaired, RESUME NEXT, RESUME label, ON ERROR RESUME NEXT, ON ERROR GOTO 0, a handler that fails itself, and in loop bodies two handlers that resume the first and the second failure of the same statement differently) x handler action. handler histories: the full tree of sequences up to the depth over {ON ERROR GOTO H1, ON ERROR GOTO H2, ON ERROR GOTO 0, ON ERROR RESUME NEXT, failing statement, trace}. Every program is one path of the reference machine (explicit GOSUB stack, handler mode, pending error) replayed on the implementation; trace output, ERR values and the end state with its row are compared.");
+    ev.set("rule", "jump layouts: up to 3 labelled blocks in every order (quick: two orders for 3 blocks), each ending in fall-through / END / RETURN / GOTO x / GOSUB x / RETURN x for every x, entered by fall-through or by GOTO, at module level and inside a SUB, every block counting its executions (the program stops after 7). loop escapes: every nest of 1..3 loops over {FOR, FOR STEP -1, WHILE, DO..LOOP UNTIL} with pairwise distinct bounds, a GOTO from the innermost body to a label in the body of every shallower level and after the nest, a GOSUB to a routine after the nest; the same with IF / ELSE / CASE / CASE ELSE blocks between the loops. jumps into a block: GOTO to a label in the middle of an IF / ELSEIF / ELSE / CASE / CASE ELSE block, a WHILE / DO body or an IF inside a WHILE, at module level and inside a SUB, once and three times in a row. GOSUB and calls: a RETURN inside a SUB that was called from a GOSUB routine, a GOSUB left behind by EXIT SUB / EXIT FUNCTION followed by a RETURN at module level (both Return without GOSUB, error 3, at the RETURN), and subprograms (also recursive ones) with their own GOSUB / RETURN pairs called from a GOSUB routine. RESUME label after an error inside a SUB, two calls deep, and below a pending GOSUB: the subprograms have ended, module-level variables and arrays are the module's again, a later unhandled error lists no call site. failing block headers: an IF / ELSEIF / second ELSEIF / single-line IF / WHILE / DO WHILE / DO UNTIL / LOOP WHILE / LOOP UNTIL condition, a SELECT CASE subject, a first / second CASE test, a FOR start / limit that divides by zero under ON ERROR GOTO + RESUME (the handler repairs the divisor), at module level and in a SUB: apart from the handler's line the output is that of the repaired program. jumps across scopes: GOTO / GOSUB / RETURN label from a SUB to a module-level label, from the module level into a SUB and from one SUB into another must be rejected with Label not defined at the row of the jump. one fault: 10 failing statement kinds (incl. a built-in that fails after a user FUNCTION has returned within the same statement, also a FUNCTION that itself executes ON ERROR RESUME NEXT) x 17 containers (main, IF / ELSE / ELSEIF blocks, single-line IF, first / middle / ELSE CASE blocks, FOR / FOR STEP / WHILE / DO bodies, an IF block that ends a FOR body, SUB and FUNCTION bodies, the end of the module with subprograms following) x 3 positions x 9 handler modes (none, RESUME with the operand repaired, RESUME NEXT, RESUME label, ON ERROR RESUME NEXT, ON ERROR GOTO 0, a handler that fails itself, and in loop bodies two handlers that resume the first and the second failure of the same statement differently) x handler action. handler histories: the full tree of sequences up to the depth over {ON ERROR GOTO H1, ON ERROR GOTO H2, ON ERROR GOTO 0, ON ERROR RESUME NEXT, failing statement, trace}. Every program is one path of the reference machine (explicit GOSUB stack, handler mode, pending error) replayed on the implementation; trace output, ERR values and the end state with its row are compared. callchain: an error 1..3 calls deep with 0..2 GOSUBs pending at module level and optionally one inside the first SUB, trapped by a module-level handler and left by RESUME label / RESUME NEXT / repair + RESUME, twice in a FOR loop: afterwards every pending module-level GOSUB is answered by its RETURN and the loop goes on (expected output by construction).");
     ev.set("exhaustive", !run.capped);
     ev.set("plan", json!(plan));
     ev.set("states", states);
